@@ -67,13 +67,13 @@ class Cut:
                 return i
         raise ValueError('loop is not a top-level statement of the function')
 
-    def run_prefix(self, **args):
+    def run_prefix(self_cut, **args):
         """execute the statements before the loop with the given arguments; returns the locals"""
-        i = self._top_index()
-        body = [n for n in self.fdef.body[:i]] + [ast.parse('return locals()').body[0].value and
+        i = self_cut._top_index()
+        body = [n for n in self_cut.fdef.body[:i]] + [ast.parse('return locals()').body[0].value and
                                                    ast.Return(value=ast.Call(func=ast.Name(id='locals', ctx=ast.Load()),
                                                                              args=[], keywords=[]))]
-        return self._call('__prefix__', body, args)
+        return self_cut._call('__prefix__', body, args)
 
     def run_suffix(self, env):
         """execute the statements after the loop from the given local state; returns the function's result"""
